@@ -197,7 +197,11 @@ func c13Layers(t *vk.T, i int) {
 	t.Distinct("correOT-setup|base-correlation")
 	ctx := hash.New(hash.BytesWithDomain{TheDomain: "ctx", Bytes: r.Bytes(4)})
 	for ci, class := range c13Classes {
-		for _, nbytes := range []int{16, 11, 1, 40} {
+		sizes := []int{16, 11, 1, 40}
+		if class == "random" && i%3 == 0 {
+			sizes = append(sizes, 8200) // 65600 transfers: beyond 2^16 rows
+		}
+		for _, nbytes := range sizes {
 			_ = ctx.WriteAny([]byte{byte(ci), byte(nbytes)})
 			choices := choiceVec(r, class, nbytes)
 			saved := append([]byte{}, choices...)
